@@ -47,3 +47,12 @@ Theorem C08_not_captured_on_failed_pre m U s pre snaps post args kwargs st t r s
   pre_holds m U pre (resolve_sig s args kwargs) st = false ->
   existsb is_body t = false /\ existsb is_capture t = false /\ (exists x, r = inr x) /\ st' = st.
 Proof. exact (reject_when_pre_fails m U s pre snaps post args kwargs st t r st'). Qed.
+
+(** Inherited snapshots (the translated [_collapse_snapshots] of /repo on this run): the same
+    snapshot object reached along several paths is kept once, in the order of first occurrence;
+    two different snapshots under one name make the class statement fail with ValueError. *)
+From ICV Require Import Generated ElabRefine.
+Theorem C08_inherited_snapshots_by_identity (bs os : list pv) :
+  collapse_snapshots (PList bs) (PList os)
+  = if names_clash (dedupe_pv (bs ++ os)) [] then Err "ValueError" else Ok (PList (dedupe_pv (bs ++ os))).
+Proof. exact (collapse_snapshots_refines bs os). Qed.
